@@ -8,7 +8,7 @@ class C01(core.Prop):
     id = "C01"
     drivers = ["s4u_interp"]
     ready = True
-    sizes = {"quick": 300, "thorough": 10000}
+    sizes = {"quick": 300, "thorough": 3000}
     max_workers = 6
     technique = ("property-based metamorphic testing (Hypothesis): the same generated program run in fresh processes with different "
                  "address-space layouts (ASLR on twice, ASLR off, perturbed heap/environment) must give byte-identical observation logs")
